@@ -105,6 +105,7 @@ type ECFields struct {
 	Curve string
 	Pub   []byte
 	D     *big.Int
+	DBody []byte // when non-nil: the raw mpint body to write instead of the minimal encoding of D
 }
 
 // DSAFields: mpint p, q, g, y, x.
@@ -120,7 +121,12 @@ func (p *PrivSection) Marshal() []byte {
 	case p.Ed != nil:
 		w.Str(p.Ed.Pub).Str(p.Ed.Priv)
 	case p.EC != nil:
-		w.S(p.EC.Curve).Str(p.EC.Pub).Mpint(p.EC.D)
+		w.S(p.EC.Curve).Str(p.EC.Pub)
+		if p.EC.DBody != nil {
+			w.Str(p.EC.DBody)
+		} else {
+			w.Mpint(p.EC.D)
+		}
 	case p.DSA != nil:
 		k := p.DSA
 		w.Mpint(k.P).Mpint(k.Q).Mpint(k.G).Mpint(k.Y).Mpint(k.X)
